@@ -273,7 +273,9 @@ pub fn all(prop: &str, cancelable: bool) -> Vec<Template> {
             let ch = p.child(0, r);
             let a = new_adapter();
             p.op(0, Op::ANew { a, kind: AKind::Future, span: Some(ch), poll_name: Some(0) });
-            p.op(1, Op::ACall { a, method: AMethod::Poll, steps: final_poll_steps(), outcome: AOutcome::Pending });
+            let mut steps = vec![Op::LAddProps { n: 1, k0: new_keys(1) }];
+            steps.extend(final_poll_steps());
+            p.op(1, Op::ACall { a, method: AMethod::Poll, steps, outcome: AOutcome::Pending });
             p.op(1, Op::ADrop { a });
             p.finish(0, r);
             p.done()
